@@ -26,6 +26,12 @@ pub fn to_exact(v: &Value) -> Value {
     }
 }
 
+/// Value inequality that also tells -0.0 from 0.0 (`serde_json` compares floats with `==`, which
+/// does not): a claim that comes back with the other sign of zero is a changed claim.
+pub fn differs(a: &Value, b: &Value) -> bool {
+    a != b || to_exact(a) != to_exact(b)
+}
+
 pub fn from_exact(v: &Value) -> Value {
     match v {
         Value::Object(o) => {
